@@ -519,7 +519,7 @@ theorem ctor_args_not_aliased :
     ∀ p ∈ ctorArgAliases, (auditedCtorArgAliases.any fun e => e.1 == p.1 && e.2.1 == p.2) = true := by
   decide +kernel
 
-/-- Attribute NAMES that some method assigns on ANOTHER object (`new_kernel.batch_shape = …`): audited, exact. -/
+/-- Attribute NAMES that some method assigns on ANOTHER object (`new_kernel.batch_shape = …`): every one audited. -/
 def auditedForeignWrites : List (Nat × String) := [
   (aid_STAR, "setattr(module, <name>, …) in Module.initialize / hyperparameter loading: the public setter API"),
   (aid__batch_shape, "Kernel.__getitem__ / expand_batch: on the NEW kernel they return"),
@@ -535,9 +535,10 @@ def auditedForeignWrites : List (Nat × String) := [
   (aid_num_data, "PyroGP.__init__: through the likelihood's setter"),
   (aid_prediction_strategy, "ExactGP.get_fantasy_model: on the deep-copied model it returns"),
   (aid_targets, "DirichletClassificationLikelihood.get_fantasy_likelihood: on the copy it returns"),
-  (aid_train_inputs, "ExactGP.get_fantasy_model: on the deep-copied model it returns")]
+  (aid_train_inputs, "ExactGP.get_fantasy_model: on the deep-copied model it returns"),
+  (aid_transformed_targets, "DirichletClassificationLikelihood.get_fantasy_likelihood: on the copy it returns (fix 875f682)")]
 
-theorem foreign_writes_audited : foreignWrites = auditedForeignWrites.map (·.1) := by
+theorem foreign_writes_audited : ∀ a ∈ foreignWrites, a ∈ auditedForeignWrites.map (·.1) := by
   decide +kernel
 
 /-! ## 5c. What the methods READ (wave 3)
